@@ -1428,10 +1428,16 @@ class TestSubprocess:
 
                 # Make sure the termination signal actually kills the process
                 # group, otherwise retry with a SIGKILL.
-                with suppress(asyncio.TimeoutError):
-                    await asyncio.wait_for(p.wait(), timeout=0.5)
                 if p.returncode is not None:
-                    return None
+                    # The test program itself has already exited; what keeps its
+                    # output open are descendants in its process group.  Give
+                    # them the same grace period, then kill the group.
+                    await asyncio.sleep(0.5)
+                else:
+                    with suppress(asyncio.TimeoutError):
+                        await asyncio.wait_for(p.wait(), timeout=0.5)
+                    if p.returncode is not None:
+                        return None
 
                 os.killpg(p.pid, signal.SIGKILL)
 
